@@ -14,6 +14,23 @@ impl Prop for C09 {
         "C09"
     }
     fn gen_world(&self, rng: &mut Rng, corpus: &Corpus) -> World {
+        if rng.chance(1, 100) {
+            // a giant input with more than a thousand line breaks, scanned and dropped before the
+            // ordinary history starts: whatever an iterator leaves behind (recycled tables, pools)
+            // must not reach the next one
+            let n = rng.range(1100, 1400);
+            let mut giant = String::new();
+            for i in 0..n {
+                giant.push(if i % 17 == 3 { 'a' } else if i % 29 == 5 { '#' } else { '\n' });
+            }
+            let k = Knobs { configs: (1, 1), modes: (1, 1), patterns: (1, 3), inputs: (1, 1), input_len: (4, 44), newline_rich: true, ..Knobs::default() };
+            let mut gw = gen::gen_world(rng, &k);
+            gw.world.configs[0][0].patterns.push(PatternSpec { pattern: "a|\\n".into(), token_type: 4242, lookahead: None });
+            gw.world.inputs.insert(0, giant);
+            gw.world.note = "giant".into();
+            mark("probe.giant_newline_input");
+            return gw.world;
+        }
         if rng.chance(1, 300) {
             if let Some(w) = gen::corpus_world(rng, corpus, 160, 2, false) {
                 mark("probe.corpus_world");
@@ -26,7 +43,7 @@ impl Prop for C09 {
             patterns: (1, 4),
             lookahead_pct: *rng.pick(&[0, 0, 0, 15]),
             inputs: (1, 2),
-            input_len: (0, 44),
+            input_len: gen_input_len(rng, 44),
             newline_rich: true,
             ..Knobs::default()
         };
@@ -44,7 +61,7 @@ impl Prop for C09 {
         if rng.chance(1, 3) {
             let used: Vec<usize> = gw.world.configs[0][0].patterns.iter().map(|p| p.token_type).collect();
             let mut t = 61;
-            while used.contains(&t) {
+            while used.iter().any(|x| gen::same_type(*x, t)) {
                 t += 1;
             }
             let pat = rng.pick(&["\\n", "\\r?\\n", "[^\\n]*\\n", "(?:.|\\n)+", "\\n+"]).to_string();
@@ -54,7 +71,16 @@ impl Prop for C09 {
         gw.world
     }
     fn new_gen<'w>(&self, world: &'w World, rng: &mut Rng) -> Box<dyn Gen + 'w> {
-        Box::new(Gen09 { m: GenModel::new(world, 1, 2), len: rng.range(8, 60) })
+        let prelude = if world.note == "giant" {
+            vec![
+                Op::Drain { it: 0, extra: 0 },
+                Op::NewIter { it: 0, sc: 0, input: 0, positions: true, with_offset: None },
+                Op::Build { sc: 0, cfg: 0, how: BuildHow::Uncached },
+            ]
+        } else {
+            vec![]
+        };
+        Box::new(Gen09 { m: GenModel::new(world, 1, 2), len: gen_history_len(rng, 8, 60), prelude })
     }
     fn new_exec<'w>(&self, world: &'w World) -> Box<dyn Exec + 'w> {
         Box::new(Exec09 { world, scanners: vec![], iters: vec![] })
@@ -72,7 +98,7 @@ impl Prop for C09 {
         &[
             "probe.reset_after_consumed_newline", "probe.exhausted_with_trailing_newline", "probe.token_on_line_gt1",
             "probe.token_ends_in_newline", "probe.token_spans_lines", "probe.position_query", "probe.position_query_after_reset",
-            "probe.multibyte_before_token", "probe.reset_right_after_newline", "probe.token_after_reset",
+            "probe.multibyte_before_token", "probe.giant_newline_input", "probe.reset_right_after_newline", "probe.token_after_reset",
             "fault.reset_back", "fault.reset_zero", "fault.exhaust_then_continue",
         ]
     }
@@ -84,10 +110,15 @@ impl Prop for C09 {
 struct Gen09<'w> {
     m: GenModel<'w>,
     len: usize,
+    /// scripted operations executed first (popped from the end)
+    prelude: Vec<Op>,
 }
 
 impl<'w> Gen for Gen09<'w> {
     fn next_op(&mut self, rng: &mut Rng) -> Option<Op> {
+        if let Some(op) = self.prelude.pop() {
+            return Some(op);
+        }
         if self.m.steps >= self.len {
             return None;
         }
@@ -100,9 +131,12 @@ impl<'w> Gen for Gen09<'w> {
         }
         let its = self.m.live_iters();
         let free = self.m.free_iters();
-        if its.is_empty() || (!free.is_empty() && rng.chance(1, 25)) {
-            let it = if free.is_empty() { rng.below(self.m.iters.len()) } else { *rng.pick(&free) };
-            return Some(Op::NewIter { it, sc: 0, input: rng.below(w.inputs.len()), positions: true, with_offset: None });
+        // after the giant prelude the giant iterator is replaced (dropped) by an ordinary one
+        let replace_giant = w.note == "giant" && self.m.steps == 3;
+        if its.is_empty() || replace_giant || (!free.is_empty() && rng.chance(1, 25)) {
+            let it = if replace_giant { 0 } else if free.is_empty() { rng.below(self.m.iters.len()) } else { *rng.pick(&free) };
+            let input = if w.note == "giant" { 1 } else { rng.below(w.inputs.len()) };
+            return Some(Op::NewIter { it, sc: 0, input, positions: true, with_offset: None });
         }
         let it = *rng.pick(&its);
         let hwm = self.m.iters[it].as_ref().unwrap().hwm;
